@@ -830,6 +830,64 @@ def c03_14(ctx):
     return [ctx.ok(spec, "c*P is computed for all %d scalars evaluated (0..1100 and 2^e-1, 2^e, 2^e+1 for e = 11..64), 0*P = infinity" % len(scalars), fn, mod, key="double-and-add")]
 
 
+def _ref_add(P1, P2, p, a=0):
+    """affine group law on y^2 = x^3 + a x + b over F_p (None = infinity)"""
+    if P1 is None:
+        return P2
+    if P2 is None:
+        return P1
+    (x1, y1), (x2, y2) = P1, P2
+    if x1 == x2 and (y1 + y2) % p == 0:
+        return None
+    if P1 == P2:
+        lam = (3 * x1 * x1 + a) * pow(2 * y1, p - 2, p) % p
+    else:
+        lam = (y2 - y1) * pow((x2 - x1) % p, p - 2, p) % p
+    x3 = (lam * lam - x1 - x2) % p
+    return x3, (lam * (x1 - x3) - y1) % p
+
+
+def c03_16(ctx):
+    """Point.__add__ is the group law: it is written for any prime field, so it is evaluated on *every pair of points* (and the
+    point at infinity) of y^2 = x^3 + 7 over the small fields F_5, F_11, F_13, F_17, F_19, F_31 -- curves that contain every case
+    the code distinguishes (equal x, equal y with different x, y = 0, infinity) -- and compared with the affine addition formulas"""
+    from sa.cells import Evaluator, Obj, Raised, Undecided
+    spec = "pecc:Point.__add__"
+    mod, fn = rl.get(ctx, spec)
+
+    def fe(n, p):
+        return Obj("pecc", "FieldElement", {"num": n, "prime": p})
+
+    def pt(P, p):
+        return Obj("pecc", "Point", {"x": None if P is None else fe(P[0], p), "y": None if P is None else fe(P[1], p), "a": fe(0, p), "b": fe(7, p)})
+    total = 0
+    for p in (5, 11, 13, 17, 19, 31):
+        pts = [None] + [(x, y) for x in range(p) for y in range(p) if (y * y - x ** 3 - 7) % p == 0]
+        for P1 in pts:
+            for P2 in pts:
+                total += 1
+                want = _ref_add(P1, P2, p)
+                try:
+                    r = Evaluator(ctx.repo).call(spec, [pt(P2, p)], self_obj=pt(P1, p))
+                except Undecided as u:
+                    return [ctx.err(spec, "point addition not evaluable on F_%d for %s + %s: %s" % (p, P1, P2, u), fn, mod)]
+                except Raised as x:
+                    return [ctx.bad(spec, "on y^2 = x^3 + 7 over F_%d, %s + %s raises %s (expected %s)" % (p, P1 or "infinity", P2 or "infinity", x.name, want or "infinity"),
+                                    fn, mod, key="group-law")]
+                got = None
+                if isinstance(r, Obj) and r.attrs.get("x") is not None:
+                    got = (r.attrs["x"].attrs["num"], r.attrs["y"].attrs["num"])
+                elif not isinstance(r, Obj):
+                    return [ctx.err(spec, "point addition returned %r" % (r,), fn, mod)]
+                if got != want:
+                    kind = "equal y, different x (horizontal chord)" if P1 and P2 and P1[1] == P2[1] and P1[0] != P2[0] else (
+                        "doubling" if P1 == P2 else ("opposite points" if P1 and P2 and P1[0] == P2[0] else "general"))
+                    return [ctx.bad(spec, "on y^2 = x^3 + 7 over F_%d, %s + %s gives %s, the group law gives %s (%s case)" % (
+                        p, P1 or "infinity", P2 or "infinity", got or "infinity", want or "infinity", kind), fn, mod, key="group-law")]
+    ctx.count("cells", total)
+    return [ctx.ok(spec, "equals the affine group law on all %d ordered pairs of points of y^2 = x^3 + 7 over F_5, F_11, F_13, F_17, F_19, F_31" % total, fn, mod, key="group-law")]
+
+
 def c03_15(ctx):
     """MEMO: products / parsed points are not remembered under a key that identifies the point only by its x coordinate"""
     from sa.memo import memo_obligation
@@ -852,5 +910,6 @@ OBLIGATIONS = [
     ("C03.13", "DATAFLOW+GUARD totality", c03_13),
     ("C03.14", "CELLS double-and-add", c03_14),
     ("C03.15", "MEMO", c03_15),
+    ("C03.16", "CELLS small fields", c03_16),
 ]
 FLOORS = {"C03.10": 7, "C03.11": 3, "C03.3": 2, "C03.5": 3, "C03.6": 3, "C03.7": 4, "C03.8": 3, "C03.9": 2}
